@@ -318,6 +318,9 @@ func (t *Transaction) Commit() {
 	}
 
 	// Update our copy of the config with the most recent one from the state.
+	// Start from an empty map: decoding into the old snapshot would keep
+	// entries that have been removed from the state in the meantime.
+	t.pristine = nil
 	err := t.state.Get("config", &t.pristine)
 	if errors.Is(err, state.ErrNoState) {
 		t.pristine = make(map[string]map[string]*json.RawMessage)
